@@ -11,7 +11,7 @@ import (
 func init() {
 	Registry["C22"] = RuleDef{Module: ".", Run: runC22,
 		Technique:   "bounds prover on returned indices (return-value range obligations), signed-to-unsigned conversion obligations, index safety of the AZ match table",
-		Explanation: "Decides for the closures returned by PreferReplicaNodeSelector, AZAffinityNodeSelector and AZAffinityReplicasAndPrimaryNodeSelector (R22a) that every returned value is the constant -1, a value handed through from pickAZ, or an index proved within [0, len(nodes)) on every path (modulo results, start offsets, constant 0 under a non-empty list), (R22b) that every conversion of a signed value to an unsigned type inside them is applied to a value proved non-negative (an unguarded conversion of len(nodes)-start wraps around for short lists), and (R22c) that pickAZ indexes the node list and its fixed-size match table within bounds and never divides by zero.",
+		Explanation: "Decides for the closures returned by PreferReplicaNodeSelector, AZAffinityNodeSelector and AZAffinityReplicasAndPrimaryNodeSelector (R22a) that every returned value is the constant -1, a value handed through from pickAZ, or an index proved within [0, len(nodes)) on every path (modulo results, start offsets, constant 0 under a non-empty list), (R22b) that every conversion of a signed value to an unsigned type inside them is applied to a value proved non-negative (an unguarded conversion of len(nodes)-start wraps around for short lists), and (R22c) that pickAZ indexes the node list and its fixed-size match table within bounds and never divides by zero. (R22f) every index expression inside a selector closure is proved in bounds (a selector may be handed an empty node list).",
 		NotDecided:  "that a same-AZ replica is preferred and that rotation is fair; that the match table's contents are valid indices (array contents are not tracked)."}
 }
 
@@ -158,6 +158,9 @@ func runC22(r *Report) {
 		if !r.Anchor("R22a", FuncName(cl)+": nodes parameter", nodes != nil) {
 			continue
 		}
+		// R22f: a selector is handed whatever node list the topology holds (possibly empty): it never
+		// indexes the list without a proof
+		boundsObligations(r, "R22f", cl, func(bc *BCtx) { paramLowerFromCallers(p, cl, bc) }, nil)
 		ln := c.LenOf(nodes)
 		for _, b := range cl.Blocks {
 			ret, ok := b.Instrs[len(b.Instrs)-1].(*ssa.Return)
@@ -192,7 +195,7 @@ func runC22(r *Report) {
 					continue
 				}
 				if isUnsignedType(cv.Type()) && !isUnsignedType(cv.X.Type()) {
-					okc := c.ProveAt(b, c.Lin(cv.X))
+					okc := c.ProveAtIdx(b, i, c.Lin(cv.X))
 					r.ObSite("R22b", Site{cl, b, i, in}, "signed-to-unsigned", okc, "a signed value converted to "+shortType(cv.Type())+" must be proved non-negative, otherwise it wraps to a huge count: "+Desc(cv.X))
 				}
 			}
@@ -202,7 +205,7 @@ func runC22(r *Report) {
 			for i, in := range b.Instrs {
 				if bo, ok := in.(*ssa.BinOp); ok && (bo.Op == token.REM || bo.Op == token.QUO) && isIntType(bo.Type()) {
 					if _, isc := ConstInt(bo.Y); !isc {
-						r.ObSite("R22c", Site{cl, b, i, in}, "divisor", c.ProveAt(b, c.Lin(bo.Y).Add(konst(1), -1)), "modulo by a value not proved >= 1")
+						r.ObSite("R22c", Site{cl, b, i, in}, "divisor", c.ProveAtIdx(b, i, c.Lin(bo.Y).Add(konst(1), -1)), "modulo by a value not proved >= 1")
 					}
 				}
 			}
@@ -265,7 +268,7 @@ func runC22(r *Report) {
 			for i, in := range b.Instrs {
 				if bo, ok := in.(*ssa.BinOp); ok && (bo.Op == token.REM || bo.Op == token.QUO) && isIntType(bo.Type()) {
 					if _, isc := ConstInt(bo.Y); !isc {
-						r.ObSite("R22c", Site{fn, b, i, in}, "divisor", c.ProveAt(b, c.Lin(bo.Y).Add(konst(1), -1)), "modulo by a value not proved >= 1")
+						r.ObSite("R22c", Site{fn, b, i, in}, "divisor", c.ProveAtIdx(b, i, c.Lin(bo.Y).Add(konst(1), -1)), "modulo by a value not proved >= 1")
 					}
 				}
 			}
